@@ -159,6 +159,8 @@ def _construct(ctor, platform, text):
     if ctor == "AddrGroup_body":
         head = "object-group ip address G" if platform == "nxos" else "object-group network G"
         return cisco_acl.AddrGroup(head + "\n " + text, platform=platform)
+    if ctor == "Port":
+        return cisco_acl.Port(text, platform=platform, protocol="tcp")
     return getattr(cisco_acl, ctor)(text, platform=platform)
 
 
@@ -166,6 +168,8 @@ def _reconstruct(ctor, platform, obj):
     import cisco_acl
 
     cls = ctor.split("_")[0]
+    if cls == "Port":
+        return cisco_acl.Port(obj.line, platform=obj.platform, protocol="tcp")
     return getattr(cisco_acl, cls)(obj.line, platform=obj.platform)
 
 
